@@ -62,7 +62,7 @@ PROPS["C01"] = dict(
     design_ref="DESIGN.md §6 C01",
     rule="40% valid encodings from the type-directed generator, 60% malformed stream (9 mutation kinds, 256-value sweeps at leading byte positions, truncation at every position, declared lengths around the cap).",
     assumptions=["model/Rust correspondence of the codec is differential", "String and bool codecs are not reachable from Block/Transaction and are not modelled"],
-    gen_items=["CAP"],
+    gen_items=["CAP", "codec."],
 )
 
 PROPS["C02"] = dict(
@@ -95,7 +95,8 @@ PROPS["C03"] = dict(
     design_ref="DESIGN.md §6 C03, Appendix A",
     rule="type-directed descriptions cycling through all 7 RingCT types, both versions, coinbase and key inputs, ring sizes 1..20, 0..20 inputs/outputs (some with hundreds of outputs), blocks with 0..hundreds of hashes.",
     assumptions=["Spec/Wire.lean is the Monero layout", "C03_dec_spec takes well-formedness in the form wfTx (build d) (C02's predicate)"],
-    gen_items=["CAP"],
+    gen_items=["CAP", "codec."],
+    field_orders=True,
 )
 
 PROPS["C05"] = dict(
